@@ -103,7 +103,16 @@ structure PObj where
   sub : Bool
   rcvs : List Rcv
   done : Option Bool      -- `_completed` / `_success`
+  cancelled : Bool        -- `publisher_removed`: a removal notice arrived while this *subscribe* request was pending
   deriving DecidableEq, Repr
+
+/-- `pending_request.publisher_removed = True` if `b` -/
+def PObj.cancelIf (po : PObj) (b : Bool) : PObj := if b then { po with cancelled := true } else po
+
+@[simp] theorem PObj.cancelIf_key (po : PObj) (b : Bool) : (po.cancelIf b).key = po.key := by cases b <;> rfl
+@[simp] theorem PObj.cancelIf_sub (po : PObj) (b : Bool) : (po.cancelIf b).sub = po.sub := by cases b <;> rfl
+@[simp] theorem PObj.cancelIf_rcvs (po : PObj) (b : Bool) : (po.cancelIf b).rcvs = po.rcvs := by cases b <;> rfl
+@[simp] theorem PObj.cancelIf_done (po : PObj) (b : Bool) : (po.cancelIf b).done = po.done := by cases b <;> rfl
 
 /-- callbacks queued on a context's event loop (`run_in_thread_arg`, `run_in_thread_wait`) -/
 inductive Cb
@@ -327,10 +336,12 @@ def handleReplyStep (cs : CtxSt) (id : ReqId) (ok : Bool) : Option (CtxSt × Lis
     | none => none
     | some po =>
       if po.sub then
-        -- a subscribe request completed: on success the waiting receivers become local subscribers; wake the waiters
+        -- a subscribe request completed: on success the waiting receivers become local subscribers; wake the waiters.
+        -- A success reply that was overtaken by the removal notice of its publisher counts as a failure.
         some ({ cs with byId := upd cs.byId id none, byKey := upd cs.byKey po.key none,
-                        lsubs := upd cs.lsubs po.key (if ok then uni (cs.lsubs po.key) po.rcvs else cs.lsubs po.key),
-                        pobj := upd cs.pobj pid (some { po with done := some ok }) }, [], .tau "reply")
+                        lsubs := upd cs.lsubs po.key
+                          (if ok && !po.cancelled then uni (cs.lsubs po.key) po.rcvs else cs.lsubs po.key),
+                        pobj := upd cs.pobj pid (some { po with done := some (ok && !po.cancelled) }) }, [], .tau "reply")
       else if po.rcvs ≠ [] then
         -- an unsubscribe request completed while new subscribers are waiting: send a new subscribe request at once
         some ({ cs with byId := upd (upd cs.byId id none) cs.nextReq (some pid),
@@ -431,7 +442,7 @@ def microStep (s : State) (th : Th) (choice choice2 : Nat) (op : MOp) (rest : Li
               (.wait pid :: rest) (.req "sub-pending" pid)
       | none =>
         let id := cs.nextReq
-        fin { cs with pobj := upd cs.pobj id (some ⟨k, true, [r], none⟩),
+        fin { cs with pobj := upd cs.pobj id (some ⟨k, true, [r], none, false⟩),
                       byId := upd cs.byId id (some id), byKey := upd cs.byKey k (some id), nextReq := id + 1 }
             (.sendChk k.pc (.subReq id k.ob k.sg true) :: .wait id :: rest) (.req "sub-request" id)
   | .wait pid =>
@@ -452,7 +463,7 @@ def microStep (s : State) (th : Th) (choice choice2 : Nat) (op : MOp) (rest : Li
         | some _ => fin cs1 rest (.tau "unsub-last-pending")
         | none =>
           let id := cs.nextReq
-          fin { cs1 with pobj := upd cs.pobj id (some ⟨k, false, [], none⟩),
+          fin { cs1 with pobj := upd cs.pobj id (some ⟨k, false, [], none, false⟩),
                          byId := upd cs.byId id (some id), byKey := upd cs.byKey k (some id), nextReq := id + 1 }
               (.sendChk k.pc (.subReq id k.ob k.sg false) :: rest) (.req "unsub-request" id)
   | .handleReply id ok =>
@@ -492,7 +503,11 @@ def microStep (s : State) (th : Th) (choice choice2 : Nat) (op : MOp) (rest : Li
     else fin cs (.removeRemote src ob sg :: .sendChk src (.subReply id false) :: rest) (.tau "obj-missing")
   | .removeRemote src ob sg =>
     fin { cs with rsubs := upd cs.rsubs ⟨ob, sg⟩ ((cs.rsubs ⟨ob, sg⟩).filter (· ≠ src)) } rest (.tau "remove-remote")
-  | .sigRemoved k => fin { cs with lsubs := upd cs.lsubs k [] } rest (.tau "signal-removed")
+  | .sigRemoved k =>
+    -- drop the local subscribers; remember the removal in a subscribe request of that signal that still waits for its reply
+    fin { cs with lsubs := upd cs.lsubs k [],
+                  pobj := fun pid => (cs.pobj pid).map (fun po => po.cancelIf (decide (cs.byKey k = some pid) && po.sub)) }
+        rest (.tau "signal-removed")
   | .popPeer n => fin { cs with peers := upd cs.peers n none } rest (.tau "pop-peer")
   | .peerRemoved n => fin (peerRemovedStep cs n) rest (.tau "peer-removed")
   | .closeConn cn cli =>
